@@ -72,3 +72,8 @@ Definition prec_agrees (ptab : list (string * prec_rule)) : bool :=
               ("NullLiteral", 0); ("BoolLiteral", 0); ("Param", 0); ("TupleStructLiteral", 0); ("CallExpr", 0); ("CaseExpr", 0)]%string%nat.
 Lemma prec_agrees_checked : prec_agrees prec_table = true.
 Proof. vm_compute. reflexivity. Qed.
+
+(* ---- C11: the statement-list loop and the entry points are the text the model Parse/ListLoop.v transcribes ---- *)
+From Verif Require Import Parse.ListLoop Gen.ListLoop.
+Lemma list_loop_checked : Gen.ListLoop.list_loop_bodies = Parse.ListLoop.expected_bodies.
+Proof. vm_compute. reflexivity. Qed.
